@@ -36,6 +36,11 @@ ASSUMPTIONS = [
     "single-process loading (num_workers=0), no pinning, CPU",
     "what a row of a TensorFrame is (coherent selection across columns) is C07; here rows are compared by content",
     "the order drawn by torch's RandomSampler is an input of the model (witnessed from the observed epoch)",
+    "'a user-supplied collate function cannot replace the row-selection collation' and 'each batch equals selecting "
+    "its rows' hold of the model by construction (no model function reads kw_collate_fn; loader_epoch is defined as the "
+    "gather); for the real class they are OBSERVED by this harness on every run: a recording collate_fn is passed in "
+    "~30 % of the loaders and must never be called (oracle keys collate-called / collate-replaced), and every batch is "
+    "compared cell by cell with the independently known source rows (batch-content:*)",
 ]
 
 STYPES = ["numerical", "categorical", "timestamp", "embedding", "multicategorical", "sequence_numerical",
@@ -222,7 +227,7 @@ def gen_ds_desc(rng, n):
     return desc
 
 
-def gen_case(rng, n=None, bs=None, src=None, shuffle=None, drop_last=None, plain=False):
+def gen_case(rng, n=None, bs=None, src=None, shuffle=None, drop_last=None, plain=False, positional=None):
     n = rng.wpick([(1, 0), (1, 1), (2, 2), (2, 3), (6, rng.randint(4, 12))]) if n is None else n
     bs = rng.randint(1, n + 1) if bs is None else bs
     src = rng.wpick([(6, "tf"), (2, "ds"), (2, "ds_unmat")]) if src is None else src
@@ -233,8 +238,14 @@ def gen_case(rng, n=None, bs=None, src=None, shuffle=None, drop_last=None, plain
         sh, sampler, bsamp = gen_sampling(rng, n, bs, bad)
     case = {"src": src, "n": n, "bs": bs, "shuffle": sh, "sampler": sampler, "batch_sampler": bsamp,
             "drop_last": (rng.chance(0.4) if drop_last is None else drop_last) and bsamp is None,
-            "user_collate": rng.chance(0.3), "positional_bs": rng.chance(0.2) and bsamp is None,
+            "user_collate": rng.chance(0.3), "positional_bs": rng.chance(0.3) and bsamp is None,
             "epochs": rng.pick([1, 1, 2]), "seed": rng.randint(0, 10 ** 6)}
+    # DataLoader(src, bs, shuffle): shuffle given positionally as well (only together with a positional batch_size)
+    case["positional_shuffle"] = bool(case["positional_bs"] and sampler is None and rng.chance(0.6))
+    if positional is not None and bsamp is None and sampler is None:
+        case["positional_bs"] = case["positional_shuffle"] = bool(positional)
+    if bsamp is not None and not plain and rng.chance(0.15):
+        case["drop_last"] = True     # torch rejects batch_sampler together with drop_last (ValueError at construction)
     if src == "tf":
         case["tf"] = gen_tf_spec(rng, n)
     else:
@@ -252,11 +263,16 @@ def gen_case(rng, n=None, bs=None, src=None, shuffle=None, drop_last=None, plain
 def generate(rng, tier):
     cases = []
     if tier == "quick":
-        cases += [gen_case(rng) for _ in range(700)]
+        cases += [gen_case(rng) for _ in range(480)]
         # every (n, bs) relation at small scope at least once: bs | n, remainder 1, bs > n
         for n in range(0, 7):
             for bs in range(1, n + 2):
                 cases.append(gen_case(rng, n=n, bs=bs, src="tf", shuffle=rng.chance(0.5), plain=True))
+        # shuffle requested by keyword and positionally, over empty and non-empty sources of every kind
+        for n in (0, 1, 3):
+            for src in ("tf", "ds", "ds_unmat"):
+                for pos in (False, True):
+                    cases.append(gen_case(rng, n=n, bs=2, src=src, shuffle=True, plain=True, positional=pos))
     else:
         cases += [gen_case(rng) for _ in range(12000)]
         # exhaustive small scope: n <= 8 x bs 1..n+1 x shuffle x drop_last x source kind
@@ -265,13 +281,21 @@ def generate(rng, tier):
                 for sh in (False, True):
                     for dl in (False, True):
                         for src in ("tf", "ds", "ds_unmat"):
-                            cases.append(gen_case(rng, n=n, bs=bs, src=src, shuffle=sh, drop_last=dl, plain=True))
+                            cases.append(gen_case(rng, n=n, bs=bs, src=src, shuffle=sh, drop_last=dl, plain=True,
+                                                  positional=bool((n + bs) % 2)))
     return cases
 
 
 # ---------------------------------------------------------------- implementation
-def user_collate(index):
-    return ("USER-COLLATE", list(index))
+class RecordingCollate:
+    """A user-supplied collate_fn: the loader must never call it."""
+
+    def __init__(self):
+        self.calls = 0
+
+    def __call__(self, index):
+        self.calls += 1
+        return ("USER-COLLATE", list(index))
 
 
 class ListSampler(torch.utils.data.Sampler):
@@ -315,12 +339,16 @@ def run(case):
     args = []
     if case["batch_sampler"] is not None:
         kw["batch_sampler"] = [list(b) for b in case["batch_sampler"]]
+        if case["drop_last"]:
+            kw["drop_last"] = True
     else:
         if case["positional_bs"]:
             args.append(case["bs"])
         else:
             kw["batch_size"] = case["bs"]
-        if case["shuffle"]:
+        if case["positional_bs"] and case.get("positional_shuffle"):
+            args.append(bool(case["shuffle"]))
+        elif case["shuffle"]:
             kw["shuffle"] = True
         elif case["seed"] % 2:
             kw["shuffle"] = False
@@ -328,8 +356,9 @@ def run(case):
             kw["sampler"] = ListSampler(case["sampler"]) if case["seed"] % 3 else list(case["sampler"])
         if case["drop_last"]:
             kw["drop_last"] = True
+    ucoll = RecordingCollate()
     if case["user_collate"]:
-        kw["collate_fn"] = user_collate
+        kw["collate_fn"] = ucoll
     try:
         loader = DataLoader(src, *args, **kw)
         obs["len"] = len(loader)
@@ -349,6 +378,7 @@ def run(case):
             ep["exc"] = C.exc_name(ex)
             ep["msg"] = str(ex)[:200]
         obs["epochs"].append(ep)
+    obs["user_collate_calls"] = ucoll.calls
     return obs
 
 
@@ -403,11 +433,17 @@ def oracle(case, obs):
     if kind in ("sampler", "batch_sampler"):
         # an index that is actually handed to the collation and is not a row position must raise
         expect_raise = any(i >= n for b in expected_index_batches(case, list(case["sampler"] or [])) for i in b)
+    if kind == "batch_sampler" and case["drop_last"]:
+        if "init_exc" in obs:
+            return None           # torch's documented restriction (mutually exclusive options), not the property
     if "init_exc" in obs:
         return dict(key=f"raises:init:{'empty-' if n == 0 else ''}{kind}",
                     what=f"DataLoader(...) raised {obs['init_exc']}: {obs.get('msg')}")
     if case["src"] == "ds_unmat" and not obs.get("materialized_after"):
         return dict(key="not-materialized", what="the loader did not materialize the dataset it was built from")
+    if obs.get("user_collate_calls"):
+        return dict(key="collate-called", what=f"the user-supplied collate_fn was called {obs['user_collate_calls']} "
+                                               f"time(s); it must never replace or accompany the row-selection collation")
     index_of = {}
     for i, row in enumerate(rows):
         index_of.setdefault(canon(row), i)
@@ -504,7 +540,9 @@ def shrink(case):
         yield dict(case, epochs=1)
     if case["user_collate"] and case["shuffle"]:
         yield dict(case, shuffle=False)
-    if case["positional_bs"]:
+    if case.get("positional_shuffle"):
+        yield dict(case, positional_shuffle=False)
+    elif case["positional_bs"]:
         yield dict(case, positional_bs=False)
     if case["src"] == "tf":
         spec = case["tf"]
@@ -559,12 +597,18 @@ def stats(cases, obss):
         d["total"] += 1
         d["src"][c["src"]] = d["src"].get(c["src"], 0) + 1
         k = sampling_kind(c)
+        n, bs = c["n"], c["bs"]
         d["sampling"][k] = d["sampling"].get(k, 0) + 1
         d["n"][c["n"]] = d["n"].get(c["n"], 0) + 1
-        n, bs = c["n"], c["bs"]
         rel = "n=0" if n == 0 else "bs>n" if bs > n else "bs|n" if n % bs == 0 else "rem1" if n % bs == 1 else "rem>1"
         d["bs_vs_n"][rel] = d["bs_vs_n"].get(rel, 0) + 1
         d["drop_last"] += bool(c["drop_last"])
+        d["positional_bs"] = d.get("positional_bs", 0) + bool(c["positional_bs"])
+        d["positional_shuffle"] = d.get("positional_shuffle", 0) + bool(c.get("positional_shuffle"))
+        d["empty_shuffle_kw"] = d.get("empty_shuffle_kw", 0) + bool(
+            n == 0 and c["shuffle"] and k == "shuffle" and not c.get("positional_shuffle"))
+        d["empty_shuffle_positional"] = d.get("empty_shuffle_positional", 0) + bool(
+            n == 0 and c["shuffle"] and k == "shuffle" and c.get("positional_shuffle"))
         if c["src"] == "tf":
             d["explicit_num_rows"] += bool(c["tf"]["cols"] and c["tf"].get("explicit_num_rows"))
             d["featureless"] += not c["tf"]["cols"]
@@ -578,6 +622,37 @@ def stats(cases, obss):
         for s in set(sts):
             d["stypes"][s] = d["stypes"].get(s, 0) + 1
     return d
+
+
+def sanity(cases, obss):
+    """Fail-closed distribution check: a run that does not cover the distinctions the property quantifies over
+    must not report green."""
+    d = stats(cases, obss)
+    probs = []
+    tot = d["total"]
+    if not tot:
+        return ["no cases"]
+    if d["error_cases"] > 0.3 * tot:
+        probs.append(f"{d['error_cases']} of {tot} loaders raise")
+    for k in ("sequential", "shuffle", "sampler", "batch_sampler"):
+        if not d["sampling"].get(k):
+            probs.append(f"sampling kind {k} never drawn")
+    for k in ("tf", "ds", "ds_unmat"):
+        if not d["src"].get(k):
+            probs.append(f"source kind {k} never drawn")
+    for k in ("n=0", "bs>n", "bs|n", "rem1", "rem>1"):
+        if not d["bs_vs_n"].get(k):
+            probs.append(f"batch_size/rows relation {k} never drawn")
+    for k in ("drop_last", "user_collate", "two_epochs", "explicit_num_rows", "featureless", "positional_bs",
+              "positional_shuffle", "empty_shuffle_kw", "empty_shuffle_positional"):
+        if not d.get(k):
+            probs.append(f"{k} never drawn")
+    for st in STYPES:
+        if not d["stypes"].get(st):
+            probs.append(f"stype {st} never drawn")
+    if d["zero_batches"] > 0.5 * tot:
+        probs.append(f"{d['zero_batches']} of {tot} epochs deliver no batch")
+    return probs
 
 
 # ---------------------------------------------------------------------- Coq side
